@@ -4,10 +4,11 @@
    child, the parent's writer / reader / wait tasks, both child_wait paths, both drivers) for:
    output read completely and in order, input reaches the child, conservation in every state,
    wait = real status / reaped exactly once / never before the exit, no deadlock for programs
-   whose parent activities run concurrently, liveness on the fair spec.  The one deviation that
-   was reproduced on the real crate (polling driver: blocking write(2) on the child's stdin) is a
-   named action; the classic sequential deadlocks and "wait keeps an untaken stdin open" are
-   named expected scenarios.
+   whose parent activities run concurrently, liveness on the fair spec.  The defect that was
+   reproduced on the real crate and repaired (polling driver: blocking write(2) on the child's
+   stdin) is a switch of the model (BlockingChildPipes); a control config with the old behaviour
+   must show the deadlock.  The classic sequential deadlocks and "wait keeps an untaken stdin
+   open" are named expected scenarios.
 2. Gen_Process prints every terminal state of every program of the small model; each program is
    replayed against the real compio-process with real children on both drivers, on the default
    build (wait on the blocking pool) and - when a nightly toolchain is present - on the
@@ -34,7 +35,9 @@ TEXT = ("TLC explores every interleaving of the parent's writer, reader and wait
         "io_uring and polling, and the bytes read, the bytes the child received, code()/signal(), the time wait "
         "returns relative to the child's exit and the reaping are checked on the real observation.")
 NOTE = ("Bounds: K=2 blocks per pipe, payload <= 6 blocks (quick) / 8 (thorough model), random byte sizes up to 1 MiB "
-        "in the thorough replay. Deadlocks are decided from /proc (child asleep in read(0)/write(1|2), runtime thread "
+        "in the thorough replay; the quick tier replays a smaller exhaustive model (about 240 programs, each on one of "
+        "the two wait paths), the thorough tier about 1200 on both. "
+        "Deadlocks are decided from /proc (child asleep in read(0)/write(1|2), runtime thread "
         "asleep in its driver wait or in write(2), no progress), a 25 s watchdog is the fall-back. Trusted: the "
         "kernel's pipe semantics, /proc/<pid>/syscall, the helper children. Child::wait consumes the Child, so "
         "'a second wait' is excluded by the type system, not by a run. The pidfd path needs nightly; if no nightly "
@@ -47,6 +50,8 @@ BIN = "replay_process"
 BIN_PIDFD = "replay_process_pidfd"
 CHILD = "c20_child"
 SHARDS = {"quick": 4, "thorough": 6}
+# actions of the code before the repair (BlockingChildPipes = TRUE): fire only in the control config
+OLD_BEHAVIOUR = ("PollWriteBlocksThread", "BlockedWriteProgress")
 MODEL_KEYS = ("kind", "nin", "nout", "nerr", "wchunk", "rchunk", "mode", "hold", "gate", "pipein", "take", "status",
               "driver")
 
@@ -115,6 +120,22 @@ def make_cases(by_prog):
     return cases
 
 
+def pipeline_cases(tier, start_id):
+    """`c20_child gated_produce | cat` through TryFrom<ChildStdout> for Stdio (outside the model): the pipe handed to
+    the second child must be blocking again."""
+    cases = []
+    nouts = (1, 3) if tier == "quick" else (0, 1, 3, 5)
+    rchunks = (1,) if tier == "quick" else (0, 1)
+    for driver in ("iour", "poll"):
+        for nout in nouts:
+            for rc in rchunks:
+                p = {"kind": "pipeline", "nin": 0, "nout": nout, "nerr": 0, "wchunk": 0, "rchunk": rc, "mode": "conc",
+                     "hold": True, "gate": False, "pipein": False, "take": True, "status": "c0", "driver": driver}
+                cases.append({"id": start_id + len(cases), "prog": p, "block": BLOCK, "helper": "own", "wstyle": "all",
+                              "expect": {"outcome": "complete", "out": nout, "err": 0, "status": "c0"}})
+    return cases
+
+
 def random_cases(n, seed, start_id):
     """Seeded byte-exact programs (sizes and chunkings not aligned to anything); only programs that have to
     complete, so the expectation does not depend on the model."""
@@ -147,9 +168,7 @@ def random_cases(n, seed, start_id):
         if b["rchunk"] != 0 and b["rchunk"] < 64:
             b["rchunk"] = 64 + b["rchunk"]          # keep the number of read calls bounded
         if kind == "echo":
-            # polling driver: stay below what the two pipes absorb (the known blocking-write deviation
-            # makes larger echo programs timing dependent there)
-            b["nin"] = size(120000 if driver == "poll" else 1 << 20)
+            b["nin"] = size(1 << 20)
             p["hold"] = rnd.random() < 0.3
         elif kind == "consumer":
             b["nin"] = size(1 << 20)
@@ -249,8 +268,9 @@ def write_cases(path, cases):
 def negative_controls(tmp, cases, binname):
     """The binding must notice (a) a child that really writes a wrong stream, (b) a child that really ends with
     another status (both: contract oracle on the real observation), (c) a flipped model expectation (drift)."""
-    pick = [c for c in cases if c["prog"]["kind"] == "producer" and c["prog"]["mode"] == "conc"
-            and c["prog"]["nout"] >= 1 and c["helper"] == "own" and not c["prog"]["hold"]][:6]
+    pick = [c for c in cases if c["prog"]["kind"] == "producer" and c["prog"]["mode"] in ("conc", "wwo")
+            and c["prog"]["nout"] >= 1 and c["helper"] == "own" and not c["prog"]["hold"]
+            and c["expect"]["outcome"] == "complete"][:6]
     if len(pick) < 6:
         raise vlib.ToolError("negative control: not enough producer cases")
     bad = []
@@ -312,17 +332,24 @@ def run(run, tier, replay):
         # thorough: larger constants for both, plus the named scenarios as TLC counterexamples.
         sfx = "" if tier == "quick" else "_thorough"
         scenarios = {}
+        # control: with the pipes left blocking (the code before the repair) the model must show the deadlock
+        # of concurrent reader and writer on the polling driver, through the action PollWriteBlocksThread
+        rs = vlib.tlc("Process", "MC_Process_pollstrict.cfg", timeout=600, coverage=False)
+        if rs.violated != "NoDeadlockStrict" or rs.error or "PollWriteBlocksThread" not in rs.out:
+            raise vlib.ToolError("control MC_Process_pollstrict.cfg: expected NoDeadlockStrict to be violated through "
+                                 "PollWriteBlocksThread, got %s %s" % (rs.violated, rs.error))
+        scenarios["MC_Process_pollstrict.cfg"] = "old behaviour (BlockingChildPipes): violates NoDeadlockStrict (expected)"
         if tier == "quick":
             r = vlib.tlc("Process", "MC_Process.cfg", timeout=900)
             vlib.require_model_ok(r, "Process/MC_Process")
-            z = vlib.zero_actions(r)
+            z = vlib.zero_actions(r, ignore=OLD_BEHAVIOUR)
             if z:
                 raise vlib.ToolError("Process/MC_Process: actions never taken: %s" % z)
             run.add_model("Process/MC_Process.cfg (invariants + ExitLeadsToWait, MustCompleteCompletes on FairSpec)", r)
         else:
             r = vlib.tlc("Process", "MC_Process_thorough.cfg", timeout=1700)
             vlib.require_model_ok(r, "Process/MC_Process_thorough")
-            z = vlib.zero_actions(r)
+            z = vlib.zero_actions(r, ignore=OLD_BEHAVIOUR)
             if z:
                 raise vlib.ToolError("Process/MC_Process_thorough: actions never taken: %s" % z)
             run.add_model("Process/MC_Process_thorough.cfg (invariants)", r)
@@ -330,18 +357,17 @@ def run(run, tier, replay):
             vlib.require_model_ok(r, "Process/MC_Process_live_thorough")
             run.add_model("Process/MC_Process_live_thorough.cfg (ExitLeadsToWait, MustCompleteCompletes on FairSpec)", r)
             # named scenarios as TLC counterexamples: each config must violate exactly its invariant
-            for cfg, inv in (("MC_Process_pollstrict.cfg", "NoDeadlockStrict"),
-                             ("MC_Process_classic.cfg", "SequentialNeverStuck"),
+            for cfg, inv in (("MC_Process_classic.cfg", "SequentialNeverStuck"),
                              ("MC_Process_held.cfg", "HeldStdinNeverStuck")):
                 rs = vlib.tlc("Process", cfg, timeout=600, coverage=False)
                 if rs.violated != inv or rs.error:
                     raise vlib.ToolError("scenario %s: expected the model to violate %s, got %s %s" %
                                          (cfg, inv, rs.violated, rs.error))
                 scenarios[cfg] = "violates " + inv + " (expected)"
-            # and without the polling driver the strict property holds
+            # the old behaviour was harmless on io_uring
             rs = vlib.tlc("Process", "MC_Process_iourstrict.cfg", timeout=900, coverage=False)
             vlib.require_model_ok(rs, "Process/MC_Process_iourstrict")
-            scenarios["MC_Process_iourstrict.cfg"] = "NoDeadlockStrict holds"
+            scenarios["MC_Process_iourstrict.cfg"] = "old behaviour, io_uring only: NoDeadlockStrict holds"
 
         phase("model checked")
         # ---- 2. behaviours ----------------------------------------------------------------
@@ -349,7 +375,7 @@ def run(run, tier, replay):
         g = vlib.tlc("Gen_Process", "Gen_Process%s.cfg" % sfx, timeout=1700, sink=printed.append)
         if g.error or g.violated:
             raise vlib.ToolError("Gen_Process: %s %s\n%s" % (g.error, g.violated, g.out[-2000:]))
-        z = vlib.zero_actions(g)
+        z = vlib.zero_actions(g, ignore=OLD_BEHAVIOUR)
         if z:
             raise vlib.ToolError("Gen_Process: actions never taken: %s" % z)
         run.add_model("Gen_Process/Gen_Process%s.cfg (exhaustive over the replayed programs, both wait paths)" % sfx, g)
@@ -368,8 +394,9 @@ def run(run, tier, replay):
             "classic deadlock (one pipe to EOF while the other fills)": lambda p, e: p["mode"] in ("seq", "seqerr")
                 and p["kind"] == "producer" and e["outcome"] == "stuck",
             "WaitHoldsStdin": lambda p, e: not p["take"] and e["outcome"] == "stuck",
-            "PollWriteBlocksThread deadlock": lambda p, e: p["mode"] == "conc" and p["driver"] == "poll"
-                and e["outcome"] == "stuck" and e.get("blocked") is True,
+            "the former reproduction (one 6-block write_all to an echo, polling driver) now completes":
+                lambda p, e: p["kind"] == "echo" and p["mode"] == "conc" and p["driver"] == "poll" and p["nin"] == 6
+                and p["wchunk"] == 0 and e["outcome"] == "complete",
             "wait with untaken stdin completes when the child ignores stdin": lambda p, e: not p["take"]
                 and p["pipein"] and e["outcome"] == "complete",
         }
@@ -378,14 +405,15 @@ def run(run, tier, replay):
                 raise vlib.ToolError("model lost the named scenario: " + name)
         for c in cases:
             p, e = c["prog"], c["expect"]
-            if p["mode"] == "conc" and p["driver"] == "iour" and e["outcome"] != "complete":
-                raise vlib.ToolError("model: concurrent program does not complete on io_uring: %s" % p)
-        extra = []
+            if p["mode"] == "conc" and e["outcome"] != "complete":
+                raise vlib.ToolError("model: concurrent program does not complete: %s" % p)
+        extra = pipeline_cases(tier, len(cases))
+        run.note("pipeline_programs", len(extra))
         if tier != "quick":
-            extra = random_cases(600, vlib.seed(), len(cases))
+            extra += random_cases(600, vlib.seed(), len(cases) + len(extra))
         allcases = cases + extra
         run.note("programs_from_model", len(cases))
-        run.note("random_byte_programs", len(extra))
+        run.note("random_byte_programs", sum(1 for c in extra if "bytes" in c))
         run.note("model_outcomes", {k: sum(1 for c in cases if c["expect"]["outcome"] == k)
                                     for k in ("complete", "stuck", "either")})
         run.note("model_exhaustive", True)
